@@ -83,6 +83,9 @@ def strategy_(draw, tier):
                 tags.append("NM:i:%d" % draw(st.integers(0, 50)))
             if tp:
                 tags.append("tp:A:" + tp)
+            if draw(st.integers(0, 4)) == 0:
+                # aligners report their own identity / divergence; the figures of stat are defined on the columns
+                tags.append(draw(st.sampled_from(["id:f:0.9815", "id:f:1", "id:f:0.5", "dv:f:0.0185", "NM:i:0"])))
             style = draw(st.sampled_from(["=X", "=X", "=X", "M", "none"]))
             if style == "M":
                 # the M-style CIGAR of the same alignment: =/X runs become M runs
@@ -273,3 +276,24 @@ def run_case(case):
     if any(f[9] == f[10] for f in fs):
         classes.append("matches==block")
     return core.Result(sec_tag and sec_mapq and multi, classes)
+
+
+def enumerations(tier, shard, nshards):
+    if shard != 0:
+        return
+
+    def big():
+        # more than 100 000 records, plain text
+        import random
+
+        rnd = random.Random(19)
+        lines = []
+        for i in range(100003):
+            m = rnd.choice([30, 50, 120])
+            x = rnd.choice([0, 0, 1, 3])
+            tp = rnd.choice(["P", "P", "S"])
+            lines.append("r%d\t%d\t0\t%d\t+\t>s1\t500\t3\t%d\t%d\t%d\t%d\ttp:A:%s\tcg:Z:%d=%s" % (
+                i % 60000, m + x + 5, m + x, 3 + m + x, m, m + x, rnd.choice([0, 60]), tp, m, ("%dX" % x) if x else ""))
+        yield {"gaf": lines, "perm": list(range(len(lines))), "via": "api"}
+
+    yield ("100 003 records (plain text)", big(), True)
